@@ -8,7 +8,7 @@
     `Residuals.update` returns is `rx = −Aᵀz − Px − τq`, `rz = Ax + s − τb`,
     `rτ = qᵀx + bᵀz + κ + xᵀPx/τ`, `dot_sz = sᵀz` in C06's vocabulary (`toFn`, `symMat`, `denseA`);
     composition of C01's `Residuals.update_eq_updateK` and `InfoUser.updateK_dense`;
-  * `Solver.update_ok` [F]: under the same hypotheses `Residuals.update` does not panic;
+  * `Solver.passResidUpdate_ok` [F]: under the same hypotheses `Residuals.update` does not panic;
   * `Solver.topNumerics_dense` [F]: the same for `topNumerics S iter`, plus
     `μ = (sᵀz + τκ)/(degree + 1)`.
 -/
@@ -40,7 +40,7 @@ theorem update_fields (r0 res : Residuals.Resid ℝ) (v : Residuals.Vars ℝ) (d
   exact ⟨rfl, rfl, rfl, rfl, rfl⟩
 
 /-- [F] under the shape hypotheses of `update_dense`, `Residuals.update` does not panic -/
-theorem update_ok (r0 : Residuals.Resid ℝ) (v : Residuals.Vars ℝ) (P A : Csc ℝ)
+theorem passResidUpdate_ok (r0 : Residuals.Resid ℝ) (v : Residuals.Vars ℝ) (P A : Csc ℝ)
     (q b : Array ℝ) (n m : ℕ)
     (hP : C16.Canonical P) (hA : C16.Canonical A)
     (hPn : P.n = n) (hPm : P.m = n) (hAn : A.n = n) (hAm : A.m = m)
@@ -186,7 +186,7 @@ example : ∃ res, Residuals.update rsExR rsExV { P := rsExM, q := #[3], A := rs
     ∧ toFn res.rx 1 = -((denseA rsExM 1 1)ᵀ *ᵥ toFn rsExV.z 1)
         - KktSystem.symMat rsExM 1 *ᵥ toFn rsExV.x 1 - rsExV.τ • toFn #[3] 1
     ∧ res.dot_sz = toFn rsExV.s 1 ⬝ᵥ toFn rsExV.z 1 := by
-  obtain ⟨res, h⟩ := update_ok rsExR rsExV rsExM rsExM #[3] #[3] 1 1 rsExM_canonical rsExM_canonical
+  obtain ⟨res, h⟩ := passResidUpdate_ok rsExR rsExV rsExM rsExM #[3] #[3] 1 1 rsExM_canonical rsExM_canonical
     rfl rfl rfl rfl rfl rfl rfl rfl rfl rfl rfl rfl rfl rfl
   obtain ⟨c1, c2, c3, -, -, c6⟩ := update_dense rsExR res rsExV rsExM rsExM #[3] #[3] 1 1
     rsExM_canonical rsExM_canonical rfl rfl rfl rfl rfl rfl rfl rfl rfl rfl rfl rfl rfl rfl h
